@@ -112,6 +112,8 @@ Callbacks3 == { Clo(P3, <<Ret(Op2("Less", IntC(1), Rd("v", 1)))>>),
                 Clo(P3, <<Ret(Rd("v", 1))>>),
                 Clo(P3, <<Log1(Rd("k", 1)), Ret(Op2("Equals", Rd("i", 1), IntC(1)))>>),
                 Clo(P3, <<Ret(IntC(0))>>),
+                \* a callback whose result is a function value (true, like every object that is not an empty string or table)
+                Clo(P3, <<Ret(Clo(<<>>, <<Ret(IntC(1))>>))>>),
                 Clo(P3, <<Log1(Rd("i", 1)), Ret(Op2("Add", Rd("v", 1), Rd("i", 1)))>>) }
 KeyFns == { Clo(P2, <<Ret(Rd("v", 1))>>),
             Clo(P2, <<Ret(Op2("Sub", IntC(0), Rd("v", 1)))>>),
